@@ -1,19 +1,707 @@
 (** C06 - theorems about the model in V2PModel.v at the real-number instance. *)
-From Coq Require Import Reals ZArith List Bool Arith Lia Lra.
+From Coq Require Import Reals ZArith List Bool Arith Lia Lra Sorted.
 From Cij Require Import Ops ROps V2PModel.
 Import ListNotations.
 Local Open Scope R_scope.
 
+Notation nthR := (@nthF R ROps).
+Notation padR := (@pad R ROps).
+
+Lemma nthR_nth (l : list R) i : nthR l i = nth i l 0.
+Proof. reflexivity. Qed.
+
+Lemma Rleb_false x y : Rleb x y = false <-> y < x.
+Proof. unfold Rleb; destruct (Rle_dec x y); split; intros; try discriminate; try lra; auto. Qed.
+
+(* ------------------------------------------------------------------------------------------ *)
+(** * 1. Four-point Lagrange interpolation *)
+
 Definition cubic (a b c d t : R) : R := a + b * t + c * t * t + d * t * t * t.
 
+Definition distinct4 (x0 x1 x2 x3 : R) : Prop :=
+  x0 <> x1 /\ x0 <> x2 /\ x0 <> x3 /\ x1 <> x2 /\ x1 <> x3 /\ x2 <> x3.
+
 Lemma lagrange4_exact_cubic :
-  forall x0 x1 x2 x3 : R,
-    x0 <> x1 -> x0 <> x2 -> x0 <> x3 -> x1 <> x2 -> x1 <> x3 -> x2 <> x3 ->
+  forall x0 x1 x2 x3 : R, distinct4 x0 x1 x2 x3 ->
   forall a b c d x : R,
     @lagrange4 R ROps x x0 x1 x2 x3 (cubic a b c d x0) (cubic a b c d x1) (cubic a b c d x2) (cubic a b c d x3)
     = cubic a b c d x.
 Proof.
-  intros x0 x1 x2 x3 H01 H02 H03 H12 H13 H23 a b c d x.
+  intros x0 x1 x2 x3 (H01 & H02 & H03 & H12 & H13 & H23) a b c d x.
   unfold lagrange4, cubic; rops.
   field. repeat split; lra.
+Qed.
+
+Lemma lagrange4_identity :
+  forall x0 x1 x2 x3 : R, distinct4 x0 x1 x2 x3 ->
+  forall x, @lagrange4 R ROps x x0 x1 x2 x3 x0 x1 x2 x3 = x.
+Proof.
+  intros x0 x1 x2 x3 (H01 & H02 & H03 & H12 & H13 & H23) x.
+  unfold lagrange4; rops. field. repeat split; lra.
+Qed.
+
+Lemma lagrange4_at_node :
+  forall x0 x1 x2 x3 : R, distinct4 x0 x1 x2 x3 ->
+  forall y0 y1 y2 y3,
+    @lagrange4 R ROps x0 x0 x1 x2 x3 y0 y1 y2 y3 = y0 /\
+    @lagrange4 R ROps x1 x0 x1 x2 x3 y0 y1 y2 y3 = y1 /\
+    @lagrange4 R ROps x2 x0 x1 x2 x3 y0 y1 y2 y3 = y2 /\
+    @lagrange4 R ROps x3 x0 x1 x2 x3 y0 y1 y2 y3 = y3.
+Proof.
+  intros x0 x1 x2 x3 (H01 & H02 & H03 & H12 & H13 & H23) y0 y1 y2 y3.
+  unfold lagrange4; rops. repeat split; field; repeat split; lra.
+Qed.
+
+(* ------------------------------------------------------------------------------------------ *)
+(** * 2. The binary search *)
+
+(** Loop invariant.  [lo0]/[up0] are the initial limits: the array is never read there (only
+    midpoints are read), which is why the padded, non-monotone ends do no harm.  No monotonicity
+    is needed for the bracket itself. *)
+Lemma bsearch_invariant :
+  forall (arr : list R) (x : R) (lo0 up0 : nat) (fuel lo up : nat),
+    (lo < up)%nat -> (up - lo <= fuel)%nat ->
+    (lo = lo0 \/ nthR arr lo <= x) ->
+    (up = up0 \/ x < nthR arr up) ->
+    let k := @bsearch R ROps fuel arr x lo up in
+    (lo <= k < up)%nat /\ (k = lo0 \/ nthR arr k <= x) /\ (S k = up0 \/ x < nthR arr (S k)).
+Proof.
+  intros arr x lo0 up0 fuel. induction fuel as [|fuel IH]; intros lo up Hlt Hfuel Hlo Hup.
+  - lia.
+  - cbn [bsearch]. destruct (Nat.ltb_spec 1 (up - lo)) as [Hgap|Hgap].
+    + assert (Hmid : (lo < (up + lo) / 2 < up)%nat).
+      { split.
+        - apply Nat.div_le_lower_bound with (b := 2%nat) (q := S lo); lia.
+        - apply Nat.div_lt_upper_bound; lia. }
+      rops. destruct (Rleb (nthR arr ((up + lo) / 2)) x) eqn:E.
+      * apply Rleb_true in E.
+        destruct (IH ((up + lo) / 2)%nat up) as (K1 & K2 & K3); try lia; auto.
+        repeat split; try lia; auto.
+      * apply Rleb_false in E.
+        destruct (IH lo ((up + lo) / 2)%nat) as (K1 & K2 & K3); try lia; auto.
+        repeat split; try lia; auto.
+    + assert (up = S lo) by lia. subst up. repeat split; try lia; auto.
+Qed.
+
+(** fuel: [length arr] iterations always suffice for [find_nearest] *)
+Lemma find_nearest_bracket :
+  forall (arr : list R) (x : R), (2 <= length arr)%nat ->
+    let k := @find_nearest R ROps arr x in
+    (k < length arr - 1)%nat /\
+    (k = 0%nat \/ nthR arr k <= x) /\
+    (S k = (length arr - 1)%nat \/ x < nthR arr (S k)).
+Proof.
+  intros arr x Hn. unfold find_nearest.
+  destruct (bsearch_invariant arr x 0%nat (length arr - 1)%nat (length arr) 0%nat (length arr - 1)%nat)
+    as (K1 & K2 & K3); try lia; auto.
+  repeat split; try lia; auto.
+Qed.
+
+(* ------------------------------------------------------------------------------------------ *)
+(** * 3. Padding and the four-node window *)
+
+Definition unpad (n e : nat) : nat :=
+  if (e =? 0)%nat then 3%nat else if (e <=? n)%nat then (e - 1)%nat else (n - 4)%nat.
+
+Lemma length_pad (row : list R) : length (padR row) = S (S (length row)).
+Proof. unfold pad. cbn [length]. rewrite app_length. cbn [length]. lia. Qed.
+
+Lemma nth_pad (row : list R) e :
+  (e <= S (length row))%nat -> nthR (padR row) e = nthR row (unpad (length row) e).
+Proof.
+  intros He. unfold unpad, nthF, pad.
+  destruct e as [|e]; [reflexivity|]. cbn [Nat.eqb nth].
+  destruct (Nat.leb_spec (S e) (length row)).
+  - rewrite app_nth1 by lia. f_equal; lia.
+  - rewrite app_nth2 by lia. replace (e - length row)%nat with 0%nat by lia. reflexivity.
+Qed.
+
+Lemma skipn4 :
+  forall k (ext : list R), (k + 3 < length ext)%nat ->
+    exists tl, skipn k ext = nthR ext k :: nthR ext (k + 1) :: nthR ext (k + 2) :: nthR ext (k + 3) :: tl.
+Proof.
+  induction k as [|k IH]; intros ext H.
+  - destruct ext as [|a [|b [|c [|d tl]]]]; cbn [length] in H; try lia.
+    exists tl. reflexivity.
+  - destruct ext as [|a ext]; cbn [length] in H; [lia|].
+    destruct (IH ext) as [tl E]; [lia|]. exists tl. cbn [skipn]. rewrite E. reflexivity.
+Qed.
+
+Lemma window_nth :
+  forall (ext : list R) k, (1 <= k)%nat -> (k + 2 < length ext)%nat ->
+    @window R ext k = Some (nthR ext (k - 1), nthR ext k, nthR ext (k + 1), nthR ext (k + 2)).
+Proof.
+  intros ext k H1 H2. destruct k as [|k]; [lia|]. cbn [window].
+  destruct (skipn4 k ext) as [tl E]; [lia|]. rewrite E.
+  replace (S k - 1)%nat with k by lia.
+  replace (k + 1)%nat with (S k) by lia. replace (S k + 1)%nat with (k + 2)%nat by lia.
+  replace (S k + 2)%nat with (k + 3)%nat by lia. reflexivity.
+Qed.
+
+Lemma window_zero (ext : list R) : @window R ext 0 = None.
+Proof. reflexivity. Qed.
+
+Lemma window_short (ext : list R) k : (length ext <= k + 2)%nat -> @window R ext k = None.
+Proof.
+  intros H. destruct k as [|k]; [reflexivity|]. cbn [window].
+  assert (L : (length (skipn k ext) <= 3)%nat) by (rewrite skipn_length; lia).
+  destruct (skipn k ext) as [|a [|b [|c [|d tl]]]]; cbn [length] in L; try reflexivity; lia.
+Qed.
+
+(* ------------------------------------------------------------------------------------------ *)
+(** * 4. Strictly increasing rows *)
+
+Definition strictly_increasing (row : list R) : Prop :=
+  forall i j, (i < j < length row)%nat -> nthR row i < nthR row j.
+
+Lemma si_le (row : list R) : strictly_increasing row ->
+  forall i j, (i <= j < length row)%nat -> nthR row i <= nthR row j.
+Proof.
+  intros Hs i j H. destruct (Nat.eq_dec i j) as [->|]; [lra|].
+  left. apply Hs. lia.
+Qed.
+
+Lemma si_inj (row : list R) : strictly_increasing row ->
+  forall i j, (i < length row)%nat -> (j < length row)%nat -> i <> j -> nthR row i <> nthR row j.
+Proof.
+  intros Hs i j Hi Hj Hne. destruct (Nat.lt_ge_cases i j).
+  - assert (nthR row i < nthR row j) by (apply Hs; lia). lra.
+  - assert (nthR row j < nthR row i) by (apply Hs; lia). lra.
+Qed.
+
+Lemma StronglySorted_strictly_increasing (row : list R) :
+  StronglySorted Rlt row -> strictly_increasing row.
+Proof.
+  induction 1 as [|a l Hs IH Hall]; intros i j Hij; cbn [length] in Hij.
+  - lia.
+  - destruct j as [|j]; [lia|]. destruct i as [|i].
+    + unfold nthF; cbn [nth]. rewrite Forall_forall in Hall. apply Hall. apply nth_In. lia.
+    + unfold nthF; cbn [nth]. apply IH. lia.
+Qed.
+
+(** the four window nodes of a padded strictly increasing row are pairwise distinct *)
+Lemma unpad_lt n e : (4 <= n)%nat -> (e <= S n)%nat -> (unpad n e < n)%nat.
+Proof.
+  intros. unfold unpad.
+  destruct (Nat.eqb_spec e 0); [lia|]. destruct (Nat.leb_spec e n); lia.
+Qed.
+
+Lemma unpad_window_inj n e e' :
+  (4 <= n)%nat -> (e < e')%nat -> (e' <= e + 3)%nat -> (e' <= S n)%nat -> unpad n e <> unpad n e'.
+Proof.
+  intros. unfold unpad.
+  destruct (Nat.eqb_spec e 0); destruct (Nat.eqb_spec e' 0);
+    destruct (Nat.leb_spec e n); destruct (Nat.leb_spec e' n); lia.
+Qed.
+
+Lemma unpad_nodes n k i :
+  (4 <= n)%nat -> (1 <= k <= n - 1)%nat -> (i <= 3)%nat ->
+  unpad n (k - 1 + i) =
+  (if (k =? 1)%nat then Nat.modulo (i + 3) 4
+   else if (k =? n - 1)%nat then (n - 4 + Nat.modulo (i + 1) 4)%nat
+   else (k - 2 + i)%nat).
+Proof.
+  intros Hn Hk Hi. unfold unpad.
+  assert (Ei : (i = 0 \/ i = 1 \/ i = 2 \/ i = 3)%nat) by lia.
+  destruct (Nat.eqb_spec (k - 1 + i) 0); destruct (Nat.leb_spec (k - 1 + i) n);
+    destruct (Nat.eqb_spec k 1); destruct (Nat.eqb_spec k (n - 1));
+    destruct Ei as [ E | [ E | [ E | E ] ] ]; subst i; try lia; (cbn; lia).
+Qed.
+
+Lemma window_nodes_distinct (row : list R) k :
+  strictly_increasing row -> (4 <= length row)%nat -> (1 <= k)%nat -> (k <= length row - 1)%nat ->
+  distinct4 (nthR (padR row) (k - 1)) (nthR (padR row) k) (nthR (padR row) (k + 1)) (nthR (padR row) (k + 2)).
+Proof.
+  intros Hs Hn H1 H2.
+  rewrite !nth_pad by lia.
+  unfold distinct4; repeat split; apply si_inj; auto;
+    try (apply unpad_lt; lia); apply unpad_window_inj; lia.
+Qed.
+
+(* ------------------------------------------------------------------------------------------ *)
+(** * 5. bracket_correct *)
+
+(** [in_range row x]: x inside [P_0, P_last) *)
+Definition in_range (row : list R) (x : R) : Prop :=
+  nthR row 0 <= x < nthR row (length row - 1).
+
+(** The index k returned on the padded row (k counts padded positions; padded position e holds
+    row[e-1]) brackets x:  row[k-1] <= x < row[k], 1 <= k <= n-1, and the slice taken by v2p is
+    the four consecutive padded entries k-1 .. k+2.  Needs no monotonicity. *)
+Lemma bracket_correct_any_row :
+  forall (row : list R) (x : R), (4 <= length row)%nat -> in_range row x ->
+    let k := @find_nearest R ROps (padR row) x in
+    (1 <= k <= length row - 1)%nat /\
+    nthR row (k - 1) <= x < nthR row k /\
+    @window R (padR row) k =
+      Some (nthR (padR row) (k - 1), nthR (padR row) k, nthR (padR row) (k + 1), nthR (padR row) (k + 2)).
+Proof.
+  intros row x Hn [Hlo Hhi] k.
+  destruct (find_nearest_bracket (padR row) x) as (K1 & K2 & K3); [rewrite length_pad; lia|].
+  fold k in K1, K2, K3. rewrite length_pad in K1, K3.
+  assert (Hk1 : (1 <= k)%nat).
+  { destruct (Nat.eq_dec k 0) as [E|]; [|lia]. exfalso.
+    destruct K3 as [K3|K3]; [lia|]. rewrite E in K3. rewrite nth_pad in K3 by lia.
+    unfold unpad in K3. cbn [Nat.eqb] in K3.
+    destruct (Nat.leb_spec 1 (length row)); [|lia]. cbn in K3. lra. }
+  assert (Hk2 : (k <= length row - 1)%nat).
+  { destruct (Nat.eq_dec k (length row)) as [E|]; [|lia]. exfalso.
+    destruct K2 as [K2|K2]; [lia|]. rewrite E in K2. rewrite nth_pad in K2 by lia.
+    unfold unpad in K2. destruct (Nat.eqb_spec (length row) 0); [lia|].
+    rewrite Nat.leb_refl in K2. lra. }
+  split; [lia|]. split.
+  - split.
+    + destruct K2 as [K2|K2]; [lia|]. rewrite nth_pad in K2 by lia. unfold unpad in K2.
+      destruct (Nat.eqb_spec k 0); [lia|]. destruct (Nat.leb_spec k (length row)); [|lia]. exact K2.
+    + destruct K3 as [K3|K3]; [lia|]. rewrite nth_pad in K3 by lia. unfold unpad in K3.
+      cbn [Nat.eqb] in K3. destruct (Nat.leb_spec (S k) (length row)); [|lia].
+      replace (S k - 1)%nat with k in K3 by lia. exact K3.
+  - apply window_nth; [lia|]. rewrite length_pad. lia.
+Qed.
+
+(** Full statement for strictly increasing rows: the bracket is THE cell containing x, and the four
+    nodes are pairwise distinct entries of the row (rows k-2..k+1 in the interior; {0,1,2,3} in the
+    first cell; {n-4..n-1} in the last cell, through the padding with columns 3 and -4). *)
+Theorem bracket_correct :
+  forall (row : list R) (x : R),
+    strictly_increasing row -> (4 <= length row)%nat -> in_range row x ->
+    let k := @find_nearest R ROps (padR row) x in
+    (1 <= k <= length row - 1)%nat /\
+    nthR row (k - 1) <= x < nthR row k /\
+    (forall j, (S j < length row)%nat -> nthR row j <= x < nthR row (S j) -> j = (k - 1)%nat) /\
+    @window R (padR row) k =
+      Some (nthR (padR row) (k - 1), nthR (padR row) k, nthR (padR row) (k + 1), nthR (padR row) (k + 2)) /\
+    distinct4 (nthR (padR row) (k - 1)) (nthR (padR row) k) (nthR (padR row) (k + 1)) (nthR (padR row) (k + 2)) /\
+    (forall i, (i <= 3)%nat ->
+       nthR (padR row) (k - 1 + i) =
+       nthR row (if (k =? 1)%nat then Nat.modulo (i + 3) 4
+                 else if (k =? length row - 1)%nat then (length row - 4 + Nat.modulo (i + 1) 4)%nat
+                 else (k - 2 + i)%nat)).
+Proof.
+  intros row x Hs Hn Hr k.
+  destruct (bracket_correct_any_row row x Hn Hr) as (K1 & K2 & K3). fold k in K1, K2, K3.
+  split; [exact K1|]. split; [exact K2|]. split; [|split; [exact K3|split]].
+  - intros j Hj [J1 J2].
+    destruct (Nat.lt_trichotomy j (k - 1)) as [L|[E|L]]; [|exact E|]; exfalso.
+    + assert (nthR row (S j) <= nthR row (k - 1)) by (apply si_le; auto; lia). lra.
+    + assert (nthR row k <= nthR row j) by (apply si_le; auto; lia). lra.
+  - apply window_nodes_distinct; auto; lia.
+  - intros i Hi. rewrite nth_pad by lia. f_equal. apply unpad_nodes; lia.
+Qed.
+
+(* ------------------------------------------------------------------------------------------ *)
+(** * 6. The conversion of one row *)
+
+Definition row_ok (prow : list R) : Prop := strictly_increasing prow /\ (4 <= length prow)%nat.
+
+(** data that are a cubic polynomial of the pressure along the isotherm are converted exactly *)
+Theorem v2p_point_cubic :
+  forall (frow prow : list R) (a b c d x : R),
+    row_ok prow -> length frow = length prow -> in_range prow x ->
+    (forall i, (i < length prow)%nat -> nthR frow i = cubic a b c d (nthR prow i)) ->
+    @v2p_point R ROps (padR frow) (padR prow) x = Some (cubic a b c d x).
+Proof.
+  intros frow prow a b c d x [Hs Hn] Hlen Hr Hf.
+  destruct (bracket_correct prow x Hs Hn Hr) as (K1 & K2 & _ & K3 & K4 & _).
+  unfold v2p_point. set (k := @find_nearest R ROps (padR prow) x) in *.
+  rewrite K3. rewrite window_nth by (try rewrite length_pad; lia).
+  assert (E : forall e, (e <= S (length prow))%nat ->
+                        nthR (padR frow) e = cubic a b c d (nthR (padR prow) e)).
+  { intros e He. rewrite !nth_pad by lia. rewrite Hlen. apply Hf. apply unpad_lt; lia. }
+  rewrite !E by lia. f_equal. apply lagrange4_exact_cubic. exact K4.
+Qed.
+
+(** converting the pressure field itself returns the requested pressure *)
+Theorem v2p_point_of_pressure_field :
+  forall (prow : list R) (x : R), row_ok prow -> in_range prow x ->
+    @v2p_point R ROps (padR prow) (padR prow) x = Some x.
+Proof.
+  intros prow x Hok Hr.
+  replace (Some x) with (Some (cubic 0 1 0 0 x)) by (unfold cubic; f_equal; ring).
+  apply v2p_point_cubic; auto. intros i _. unfold cubic; ring.
+Qed.
+
+(** at a node the result is the tabulated value (whatever the data) *)
+Theorem v2p_point_at_node :
+  forall (frow prow : list R) (j : nat),
+    row_ok prow -> length frow = length prow -> (S j < length prow)%nat ->
+    @v2p_point R ROps (padR frow) (padR prow) (nthR prow j) = Some (nthR frow j).
+Proof.
+  intros frow prow j [Hs Hn] Hlen Hj.
+  assert (Hr : in_range prow (nthR prow j)).
+  { split; [apply si_le; auto; lia | apply Hs; lia]. }
+  destruct (bracket_correct prow (nthR prow j) Hs Hn Hr) as (K1 & K2 & K2u & K3 & K4 & _).
+  unfold v2p_point. set (k := @find_nearest R ROps (padR prow) (nthR prow j)) in *.
+  assert (Ej : j = (k - 1)%nat).
+  { apply K2u; [lia|]. split; [lra | apply Hs; lia]. }
+  rewrite K3. rewrite window_nth by (try rewrite length_pad; lia).
+  assert (Ex : nthR prow j = nthR (padR prow) k).
+  { rewrite nth_pad by lia. unfold unpad. destruct (Nat.eqb_spec k 0); [lia|].
+    destruct (Nat.leb_spec k (length prow)); [|lia]. rewrite Ej. reflexivity. }
+  assert (Ey : nthR frow j = nthR (padR frow) k).
+  { rewrite nth_pad by lia. unfold unpad. destruct (Nat.eqb_spec k 0); [lia|].
+    rewrite Hlen. destruct (Nat.leb_spec k (length prow)); [|lia]. rewrite Ej. reflexivity. }
+  rewrite Ex, Ey. f_equal.
+  destruct (lagrange4_at_node _ _ _ _ K4 (nthR (padR frow) (k - 1)) (nthR (padR frow) k)
+              (nthR (padR frow) (k + 1)) (nthR (padR frow) (k + 2))) as (_ & L1 & _ & _).
+  exact L1.
+Qed.
+
+(** outside [P_0, P_last) the conversion is undefined (the Python code raises ValueError when it
+    unpacks the short slice): nothing is ever extrapolated, on either side *)
+Theorem v2p_point_outside :
+  forall (frow prow : list R) (x : R), row_ok prow ->
+    x < nthR prow 0 \/ nthR prow (length prow - 1) <= x ->
+    @v2p_point R ROps (padR frow) (padR prow) x = None.
+Proof.
+  intros frow prow x [Hs Hn] Hx. unfold v2p_point.
+  destruct (find_nearest_bracket (padR prow) x) as (K1 & K2 & K3); [rewrite length_pad; lia|].
+  set (k := @find_nearest R ROps (padR prow) x) in *. rewrite length_pad in K1, K3.
+  destruct Hx as [Hx|Hx].
+  - assert (Hk : k = 0%nat).
+    { destruct (Nat.eq_dec k 0) as [|N]; [assumption|exfalso].
+      destruct K2 as [K2|K2]; [lia|].
+      rewrite nth_pad in K2 by lia. unfold unpad in K2.
+      destruct (Nat.eqb_spec k 0); [lia|]. destruct (Nat.leb_spec k (length prow)); [|lia].
+      assert (nthR prow 0 <= nthR prow (k - 1)) by (apply si_le; auto; lia). lra. }
+    rewrite Hk. reflexivity.
+  - assert (Hk : k = length prow).
+    { destruct (Nat.eq_dec k (length prow)) as [|N]; [assumption|exfalso].
+      destruct K3 as [K3|K3]; [lia|].
+      rewrite nth_pad in K3 by lia. unfold unpad in K3. cbn [Nat.eqb] in K3.
+      destruct (Nat.leb_spec (S k) (length prow)); [|lia].
+      assert (nthR prow (S k - 1) <= nthR prow (length prow - 1)) by (apply si_le; auto; lia). lra. }
+    rewrite window_short; [reflexivity|]. rewrite length_pad. lia.
+Qed.
+
+(* ------------------------------------------------------------------------------------------ *)
+(** * 7. Rows and matrices *)
+
+Lemma mapM_Some {A B} (f : A -> option B) (g : A -> B) (l : list A) :
+  (forall a, In a l -> f a = Some (g a)) -> mapM f l = Some (map g l).
+Proof.
+  induction l as [|a l IH]; intros H; cbn [mapM map]; [reflexivity|].
+  rewrite (H a) by (left; reflexivity). rewrite IH by (intros; apply H; right; assumption). reflexivity.
+Qed.
+
+Lemma mapM_None {A B} (f : A -> option B) (l : list A) (a : A) :
+  In a l -> f a = None -> mapM f l = None.
+Proof.
+  induction l as [|b l IH]; intros Hin Hf; [destruct Hin|]. cbn [mapM].
+  destruct Hin as [->|Hin]; [rewrite Hf; reflexivity|].
+  rewrite (IH Hin Hf). destruct (f b); reflexivity.
+Qed.
+
+Definition grid_in_range (prow pd : list R) : Prop := forall x, In x pd -> in_range prow x.
+
+Lemma v2p_row_unfold (frow prow pd : list R) :
+  (4 <= length prow)%nat -> length frow = length prow ->
+  @v2p_row R ROps frow prow pd = mapM (@v2p_point R ROps (padR frow) (padR prow)) pd.
+Proof.
+  intros Hn Hl. unfold v2p_row.
+  destruct (Nat.ltb_spec (length prow) 4); [lia|]. rewrite Hl, Nat.eqb_refl. reflexivity.
+Qed.
+
+Theorem v2p_row_cubic :
+  forall (frow prow pd : list R) (a b c d : R),
+    row_ok prow -> length frow = length prow -> grid_in_range prow pd ->
+    (forall i, (i < length prow)%nat -> nthR frow i = cubic a b c d (nthR prow i)) ->
+    @v2p_row R ROps frow prow pd = Some (map (cubic a b c d) pd).
+Proof.
+  intros frow prow pd a b c d Hok Hl Hr Hf.
+  rewrite v2p_row_unfold by (try apply Hok; auto).
+  apply mapM_Some. intros x Hx. apply v2p_point_cubic; auto.
+Qed.
+
+Theorem v2p_row_of_pressure_field :
+  forall (prow pd : list R), row_ok prow -> grid_in_range prow pd ->
+    @v2p_row R ROps prow prow pd = Some pd.
+Proof.
+  intros prow pd Hok Hr. rewrite v2p_row_unfold by (try apply Hok; auto).
+  rewrite <- (map_id pd) at 2. apply mapM_Some. intros x Hx.
+  apply v2p_point_of_pressure_field; auto.
+Qed.
+
+(** a requested pressure outside [P_0, P_last) of the row makes the whole conversion undefined *)
+Theorem v2p_row_outside :
+  forall (frow prow pd : list R) (x : R),
+    row_ok prow -> length frow = length prow -> In x pd ->
+    x < nthR prow 0 \/ nthR prow (length prow - 1) <= x ->
+    @v2p_row R ROps frow prow pd = None.
+Proof.
+  intros frow prow pd x Hok Hl Hin Hx. rewrite v2p_row_unfold by (try apply Hok; auto).
+  apply mapM_None with (a := x); auto. apply v2p_point_outside; auto.
+Qed.
+
+(** matrix level: converting the pressure field returns the requested grid at every temperature *)
+Theorem v2p_of_pressure_field :
+  forall (P : list (list R)) (pd : list R),
+    Forall (fun prow => row_ok prow /\ grid_in_range prow pd) P ->
+    @v2p R ROps P P pd = Some (map (fun _ => pd) P).
+Proof.
+  intros P pd H. induction H as [|prow P [Hok Hr] _ IH]; [reflexivity|].
+  cbn [v2p map]. rewrite v2p_row_of_pressure_field by auto. rewrite IH. reflexivity.
+Qed.
+
+(** matrix level, cubic data: row t of the quantity is the cubic [coefs t] of the pressure along isotherm t *)
+Definition cub (co : R * R * R * R) (t : R) : R :=
+  let '(a, b, c, d) := co in cubic a b c d t.
+
+Inductive cubic_isotherms (pd : list R) : list (list R) -> list (list R) -> list (R * R * R * R) -> Prop :=
+| ci_nil : cubic_isotherms pd [] [] []
+| ci_cons frow prow co f p coefs :
+    row_ok prow -> length frow = length prow -> grid_in_range prow pd ->
+    (forall i, (i < length prow)%nat -> nthR frow i = cub co (nthR prow i)) ->
+    cubic_isotherms pd f p coefs ->
+    cubic_isotherms pd (frow :: f) (prow :: p) (co :: coefs).
+
+Theorem v2p_cubic_isotherms :
+  forall pd f p coefs, cubic_isotherms pd f p coefs ->
+    @v2p R ROps f p pd = Some (map (fun co => map (cub co) pd) coefs).
+Proof.
+  intros pd f p coefs H. induction H as [|frow prow [[[a b] c] d] f p coefs Hok Hl Hr Hf _ IH]; [reflexivity|].
+  cbn [v2p map]. rewrite (v2p_row_cubic frow prow pd a b c d) by auto. rewrite IH. reflexivity.
+Qed.
+
+(* ------------------------------------------------------------------------------------------ *)
+(** * 8. cij layer *)
+
+(** every pressure-base quantity is v2p of the volume-base quantity of the same name with the QHA
+    pressure field and the requested grid (definitional; the tie checks it against the code) *)
+Theorem same_field_same_grid :
+  forall (c : @qha_view R) (q : list (list R)),
+    @pressure_base R ROps c q = @v2p R ROps q (vb_pressures c) (pb_p_array c) /\
+    @pb_volumes R ROps c =
+      @pressure_base R ROps c (repeat (vb_v_array c) (length (vb_pressures c))).
+Proof. intros; split; reflexivity. Qed.
+
+Theorem pressure_base_of_pressures :
+  forall (c : @qha_view R),
+    Forall (fun prow => row_ok prow /\ grid_in_range prow (pb_p_array c)) (vb_pressures c) ->
+    @pressure_base R ROps c (vb_pressures c) = Some (map (fun _ => pb_p_array c) (vb_pressures c)).
+Proof. intros c H. unfold pressure_base. apply v2p_of_pressure_field. exact H. Qed.
+
+(* ------------------------------------------------------------------------------------------ *)
+(** * 9. The range check *)
+
+Definition last_of (row : list R) : R := nthR row (length row - 1).
+
+Lemma fold_fmin2 :
+  forall (t : list R) (a : R),
+    let m := fold_left (@fmin2 R ROps) t a in
+    m <= a /\ (forall x, In x t -> m <= x) /\ (m = a \/ In m t).
+Proof.
+  induction t as [|b t IH]; intros a; cbn [fold_left].
+  - split; [lra|]. split; [intros x []|left; reflexivity].
+  - destruct (IH (@fmin2 R ROps a b)) as (I1 & I2 & I3).
+    assert (Hm : @fmin2 R ROps a b <= a /\ @fmin2 R ROps a b <= b /\
+                 (@fmin2 R ROps a b = a \/ @fmin2 R ROps a b = b)).
+    { unfold fmin2; rops. destruct (Rleb a b) eqn:E;
+        [apply Rleb_true in E | apply Rleb_false in E]; repeat split; auto; lra. }
+    destruct Hm as (M1 & M2 & M3).
+    split; [lra|]. split.
+    + intros x [->|Hx]; [lra | apply I2; exact Hx].
+    + destruct I3 as [I3|I3]; [|right; right; exact I3].
+      destruct M3 as [M3|M3]; [left; congruence | right; left; congruence].
+Qed.
+
+Lemma fold_fmax2 :
+  forall (t : list R) (a : R),
+    let m := fold_left (@fmax2 R ROps) t a in
+    a <= m /\ (forall x, In x t -> x <= m) /\ (m = a \/ In m t).
+Proof.
+  induction t as [|b t IH]; intros a; cbn [fold_left].
+  - split; [lra|]. split; [intros x []|left; reflexivity].
+  - destruct (IH (@fmax2 R ROps a b)) as (I1 & I2 & I3).
+    assert (Hm : a <= @fmax2 R ROps a b /\ b <= @fmax2 R ROps a b /\
+                 (@fmax2 R ROps a b = a \/ @fmax2 R ROps a b = b)).
+    { unfold fmax2; rops. destruct (Rleb a b) eqn:E;
+        [apply Rleb_true in E | apply Rleb_false in E]; repeat split; auto; lra. }
+    destruct Hm as (M1 & M2 & M3).
+    split; [lra|]. split.
+    + intros x [->|Hx]; [lra | apply I2; exact Hx].
+    + destruct I3 as [I3|I3]; [|right; right; exact I3].
+      destruct M3 as [M3|M3]; [left; congruence | right; left; congruence].
+Qed.
+
+Lemma min_list_spec (l : list R) (m : R) :
+  @min_list R ROps l = Some m -> In m l /\ forall x, In x l -> m <= x.
+Proof.
+  destruct l as [|a t]; [discriminate|]. cbn [min_list]. intros E; injection E as <-.
+  destruct (fold_fmin2 t a) as (I1 & I2 & I3). split.
+  - destruct I3 as [->|I3]; [left; reflexivity | right; exact I3].
+  - intros x [->|Hx]; [exact I1 | apply I2; exact Hx].
+Qed.
+
+Lemma max_list_spec (l : list R) (m : R) :
+  @max_list R ROps l = Some m -> In m l /\ forall x, In x l -> x <= m.
+Proof.
+  destruct l as [|a t]; [discriminate|]. cbn [max_list]. intros E; injection E as <-.
+  destruct (fold_fmax2 t a) as (I1 & I2 & I3). split.
+  - destruct I3 as [->|I3]; [left; reflexivity | right; exact I3].
+  - intros x [->|Hx]; [exact I1 | apply I2; exact Hx].
+Qed.
+
+Theorem range_check_sound :
+  forall (P : list (list R)) (pd : list R),
+    (@pressure_status R ROps P pd = Some true ->
+       forall row p, In row P -> In p pd -> p <= last_of row) /\
+    (@pressure_status R ROps P pd = Some false ->
+       exists row p, In row P /\ In p pd /\ last_of row < p) /\
+    (@pressure_status R ROps P pd = None <-> P = [] \/ pd = []).
+Proof.
+  intros P pd. unfold pressure_status.
+  destruct (@min_list R ROps (@last_col R ROps P)) as [lo|] eqn:Emin;
+    destruct (@max_list R ROps pd) as [hi|] eqn:Emax.
+  - apply min_list_spec in Emin. apply max_list_spec in Emax.
+    destruct Emin as [Min1 Min2], Emax as [Max1 Max2].
+    unfold flt; rops. rewrite negb_involutive.
+    split; [|split].
+    + intros E. injection E as E. apply Rleb_true in E. intros row p Hrow Hp.
+      assert (lo <= last_of row).
+      { apply Min2. unfold last_col. apply in_map_iff. exists row. split; [reflexivity|exact Hrow]. }
+      assert (p <= hi) by (apply Max2; exact Hp). lra.
+    + intros E. injection E as E. apply Rleb_false in E.
+      unfold last_col in Min1. apply in_map_iff in Min1. destruct Min1 as [row [Er Hrow]].
+      exists row, hi. repeat split; auto. unfold last_of. rewrite Er. exact E.
+    + split; [discriminate|]. intros [->| ->]; [destruct Min1 | destruct Max1].
+  - split; [discriminate|]. split; [discriminate|]. split; [|reflexivity].
+    intros _. right. destruct pd; [reflexivity|discriminate].
+  - split; [discriminate|]. split; [discriminate|]. split; [|reflexivity].
+    intros _. left. destruct P; [reflexivity|discriminate].
+  - split; [discriminate|]. split; [discriminate|]. split; [|reflexivity].
+    intros _. left. destruct P; [reflexivity|discriminate].
+Qed.
+
+(** the decision does not depend on the pressure unit (the code checks in GPa and converts in Ry/bohr^3) *)
+Lemma fmin2_scale (s a b : R) : 0 < s -> @fmin2 R ROps (s * a) (s * b) = s * @fmin2 R ROps a b.
+Proof.
+  intros Hs. unfold fmin2; rops.
+  destruct (Rleb a b) eqn:E; [apply Rleb_true in E | apply Rleb_false in E].
+  - replace (Rleb (s * a) (s * b)) with true; [reflexivity|]. symmetry. apply Rleb_true. nra.
+  - replace (Rleb (s * a) (s * b)) with false; [reflexivity|]. symmetry. apply Rleb_false. nra.
+Qed.
+Lemma fmax2_scale (s a b : R) : 0 < s -> @fmax2 R ROps (s * a) (s * b) = s * @fmax2 R ROps a b.
+Proof.
+  intros Hs. unfold fmax2; rops.
+  destruct (Rleb a b) eqn:E; [apply Rleb_true in E | apply Rleb_false in E].
+  - replace (Rleb (s * a) (s * b)) with true; [reflexivity|]. symmetry. apply Rleb_true. nra.
+  - replace (Rleb (s * a) (s * b)) with false; [reflexivity|]. symmetry. apply Rleb_false. nra.
+Qed.
+
+
+Lemma fold_fmin2_scale (s : R) : 0 < s -> forall t a,
+  fold_left (@fmin2 R ROps) (map (Rmult s) t) (s * a) = s * fold_left (@fmin2 R ROps) t a.
+Proof.
+  intros Hs. induction t as [|b t IH]; intros a; cbn [map fold_left]; [reflexivity|].
+  rewrite fmin2_scale by exact Hs. apply IH.
+Qed.
+Lemma fold_fmax2_scale (s : R) : 0 < s -> forall t a,
+  fold_left (@fmax2 R ROps) (map (Rmult s) t) (s * a) = s * fold_left (@fmax2 R ROps) t a.
+Proof.
+  intros Hs. induction t as [|b t IH]; intros a; cbn [map fold_left]; [reflexivity|].
+  rewrite fmax2_scale by exact Hs. apply IH.
+Qed.
+
+Theorem pressure_status_unit_invariant :
+  forall (s : R) (P : list (list R)) (pd : list R), 0 < s ->
+    @pressure_status R ROps (map (map (Rmult s)) P) (map (Rmult s) pd) = @pressure_status R ROps P pd.
+Proof.
+  intros s P pd Hs. unfold pressure_status.
+  assert (EL : @last_col R ROps (map (map (Rmult s)) P) = map (Rmult s) (@last_col R ROps P)).
+  { unfold last_col. rewrite !map_map. apply map_ext. intros row. rewrite map_length.
+    unfold nthF; rops. replace 0 with (s * 0) at 1 by ring. apply map_nth. }
+  rewrite EL.
+  destruct (@last_col R ROps P) as [|a t]; [reflexivity|].
+  destruct pd as [|b u]; [reflexivity|].
+  cbn [map min_list max_list]. rewrite fold_fmin2_scale, fold_fmax2_scale by exact Hs.
+  f_equal. f_equal. unfold flt; rops. f_equal.
+  set (lo := fold_left (@fmin2 R ROps) t a). set (hi := fold_left (@fmax2 R ROps) u b).
+  destruct (Rleb hi lo) eqn:E; [apply Rleb_true in E | apply Rleb_false in E].
+  - apply Rleb_true. nra.
+  - apply Rleb_false. nra.
+Qed.
+
+(** end to end for the pressure field: an accepted grid that also respects the lower end and does not
+    hit a last-column value exactly is converted, and the result is the requested grid.  The two extra
+    hypotheses are exactly what the code's check does not establish (see V2P: no lower-range check;
+    [<] rather than [<=]). *)
+Theorem checked_pressure_base_of_pressures :
+  forall (c : @qha_view R),
+    let P := vb_pressures c in let pd := pb_p_array c in
+    @pressure_status R ROps P pd = Some true ->
+    Forall row_ok P ->
+    (forall row p, In row P -> In p pd -> nthR row 0 <= p /\ p <> last_of row) ->
+    @checked_pressure_base R ROps c P pd P = Some (map (fun _ => pd) P).
+Proof.
+  intros c P pd Hacc Hok Hlow. unfold checked_pressure_base. rewrite Hacc.
+  apply pressure_base_of_pressures. fold P pd.
+  destruct (range_check_sound P pd) as (Hs & _ & _). specialize (Hs Hacc).
+  rewrite Forall_forall in *. intros row Hrow. split; [apply Hok; exact Hrow|].
+  intros p Hp. destruct (Hlow row p Hrow Hp) as [L1 L2]. specialize (Hs row p Hrow Hp).
+  unfold in_range. fold (last_of row). split; [exact L1|]. destruct Hs as [Hs|Hs]; [exact Hs|contradiction].
+Qed.
+
+(** a grid that reaches a last-column value exactly is ACCEPTED by the check and then undefined in the
+    conversion (Python: ValueError from the unpacking, at first use rather than at construction) *)
+Theorem accepted_boundary_grid_is_undefined :
+  exists (P : list (list R)) (pd : list R),
+    @pressure_status R ROps P pd = Some true /\ Forall row_ok P /\
+    @v2p R ROps P P pd = None.
+Proof.
+  exists [[0; 1; 2; 3; 4]], [4]. split; [|split].
+  - unfold pressure_status, min_list, max_list, last_col, flt; cbn; rops.
+    rewrite negb_involutive. f_equal. apply Rleb_true. lra.
+  - constructor; [|constructor]. split; [|cbn; lia].
+    apply StronglySorted_strictly_increasing. repeat constructor; lra.
+  - cbn [v2p]. rewrite (v2p_row_outside [0; 1; 2; 3; 4] [0; 1; 2; 3; 4] [4] 4); auto.
+    + split; [|cbn; lia]. apply StronglySorted_strictly_increasing. repeat constructor; lra.
+    + left; reflexivity.
+    + right. cbn. lra.
+Qed.
+
+(* ------------------------------------------------------------------------------------------ *)
+(** * 10. Non-vacuity *)
+
+Definition ex_row : list R := [0; 1; 2; 3; 4; 5].
+
+Example ex_row_ok : row_ok ex_row.
+Proof.
+  split; [|cbn; lia]. apply StronglySorted_strictly_increasing. unfold ex_row. repeat constructor; lra.
+Qed.
+
+Example ex_in_range : in_range ex_row (5 / 2).
+Proof. unfold in_range, ex_row; cbn. lra. Qed.
+
+Example ex_distinct : distinct4 3 0 1 2.
+Proof. unfold distinct4; repeat split; lra. Qed.
+
+(** squares tabulated on the row, requested at 5/2 and in the first and last cell: exact *)
+Example ex_cubic_row :
+  @v2p_row R ROps (map (fun t => t * t) ex_row) ex_row [1 / 2; 5 / 2; 9 / 2] = Some [1 / 4; 25 / 4; 81 / 4].
+Proof.
+  rewrite (v2p_row_cubic _ ex_row _ 0 0 1 0).
+  - cbn [map]. repeat f_equal; unfold cubic; field.
+  - exact ex_row_ok.
+  - reflexivity.
+  - intros x [<-|[<-|[<-|[]]]]; unfold in_range, ex_row; cbn; lra.
+  - intros i Hi. unfold ex_row in *. cbn [length] in Hi.
+    do 6 (destruct i as [|i]; [unfold nthF, cubic; cbn; lra|]). lia.
+Qed.
+
+Ltac rleb_decide :=
+  repeat (match goal with |- context [Rleb ?a ?b] =>
+            first [ replace (Rleb a b) with true by (symmetry; apply Rleb_true; lra)
+                  | replace (Rleb a b) with false by (symmetry; apply Rleb_false; lra) ] end; cbv iota).
+
+Example ex_range_accept : @pressure_status R ROps [[0; 1; 2; 3; 4; 5]; [0; 1; 2; 3; 4; 6]] [0; 5] = Some true.
+Proof.
+  unfold pressure_status, min_list, max_list, last_col, flt, fmin2, fmax2; cbn; rops.
+  rleb_decide. reflexivity.
+Qed.
+
+Example ex_range_reject : @pressure_status R ROps [[0; 1; 2; 3; 4; 5]; [0; 1; 2; 3; 4; 6]] [0; 11 / 2] = Some false.
+Proof.
+  unfold pressure_status, min_list, max_list, last_col, flt, fmin2, fmax2; cbn; rops.
+  rleb_decide. reflexivity.
 Qed.
